@@ -52,3 +52,59 @@ Example C05_hyp_met :
      Return Success [(5,5)] [(3,3);(4,4)] [(6,6)]; Return Keep [] [(8,8)] []]%N = false
   /\ exec init [Start; AddLast (1,1); AddLast (2,2)]%N = mkState ([] ++ (1,1) :: [(2,2)])%N true (Some (1,1)%N).
 Proof. split; vm_compute; reflexivity. Qed.
+
+(* ---- observers (Iterate / String) overlapping operations of another goroutine ----
+   XP extends P: an observer that runs while another goroutine performs k operations must be
+   shown one of the k+1 lists an ordinary list passes through (never a mixture), with no empty
+   slot; Length()/GetFirst()/GetLast()/Get() afterwards describe the list after the last
+   operation.  XT is T carried over (finding F14); XWF delimits the overlapping operations the
+   clause speaks about (worker-independent operations, optionally ended by the return of the
+   handler in progress). *)
+Theorem C05_observers_refine_list_partial : forall xs,
+  XT xs = false -> XWF xs = true -> XP xs (xrun xs) = true.
+Proof. exact observers_refine_list_partial. Qed.
+Print Assumptions C05_observers_refine_list_partial.
+
+(* the clause, ONE overlapping operation: the walk is the list before or the list after *)
+Theorem C05_walk_one_op : forall rn w l o r l',
+  chain_ok rn w false l [o] [r] l' = true <->
+  spec_ok l rn o l' r = true /\ (w = l \/ w = l').
+Proof. exact walk_one_op. Qed.
+Print Assumptions C05_walk_one_op.
+
+(* the clause, k overlapping operations: the walk is one of the k+1 lists of a chain of
+   ordinary-list steps leading from the list before to the list after *)
+Theorem C05_walk_k_ops : forall cs rn w l rs l',
+  chain_ok rn w false l cs rs l' = true ->
+  exists ms, chain_rel rn l cs rs ms l' /\ length ms = length cs /\ In w (l :: ms).
+Proof. exact walk_k_ops_unseen. Qed.
+Print Assumptions C05_walk_k_ops.
+
+(* the model's observers are atomic (one linearisation point, at their start) *)
+Theorem C05_iterate_atomic : forall s pos cs,
+  x_walk (snd (xstep s (IterateDuring pos cs))) = map Some (items s)
+  /\ fst (xstep s (IterateDuring pos cs)) = exec s cs.
+Proof. exact iterate_atomic. Qed.
+Print Assumptions C05_iterate_atomic.
+
+(* sequences without observers: XP / xrun are P / run *)
+Theorem C05_observers_conservative : forall ops,
+  xrun (map Plain ops) = map plain_obs (run ops)
+  /\ XP (map Plain ops) (map plain_obs (run ops)) = P ops (run ops).
+Proof. exact observers_conservative. Qed.
+Print Assumptions C05_observers_conservative.
+
+(* non-vacuity: a sequence with overlapping observers meets XT = false and XWF = true; the
+   clause is not trivially true: it rejects the torn walk [a c d d] of [a b c d] / Remove b and
+   accepts both linearisations *)
+Example C05_observers_hyp_met :
+  let xs := [Plain Start; Plain (AddLast (1,1)); Plain (AddLast (2,2)); Plain (AddLast (3,3)); Plain (AddLast (4,4));
+             IterateDuring 0 [Remove 2];
+             IterateDuring 1 [AddFirst (5,5); Remove 3; RemoveLast; Return Success [(6,6)] [(7,7)] [(8,8)]];
+             IterateDuring 2 [Filter [6;7]; AddAfter 9 (9,9)]]%N in
+  XT xs = false /\ XWF xs = true
+  /\ chain_ok None [(1,1);(3,3);(4,4);(4,4)]%N false [(1,1);(2,2);(3,3);(4,4)]%N [Remove 2%N] [Some (2,2)%N] [(1,1);(3,3);(4,4)]%N = false
+  /\ chain_ok None [(1,1);(2,2);(3,3);(4,4)]%N false [(1,1);(2,2);(3,3);(4,4)]%N [Remove 2%N] [Some (2,2)%N] [(1,1);(3,3);(4,4)]%N = true
+  /\ chain_ok None [(1,1);(3,3);(4,4)]%N false [(1,1);(2,2);(3,3);(4,4)]%N [Remove 2%N] [Some (2,2)%N] [(1,1);(3,3);(4,4)]%N = true
+  /\ chain_ok None [(1,1);(3,3)]%N false [(1,1);(2,2);(3,3)]%N [Remove 2; AddLast (4,4)]%N [Some (2,2)%N; None] [(1,1);(3,3);(4,4)]%N = true.
+Proof. repeat split; vm_compute; reflexivity. Qed.
